@@ -8,19 +8,22 @@ from ..core import RAISED, Sub
 from ..oracle.joint import Joint
 
 RULE = (
-    "cases = two-slice templates with 1-3 variables per slice (cards 2-3, string names), a random intra-slice DAG, "
-    "random inter-slice edges (one or several interface nodes), CPDs for slice 0 and for the transition (parents "
-    "declared in any order) x query variables at times 0..T (T<=3) x evidence classes {none, non-interface only, "
-    "on interface nodes, in several slices, later than the query}. Oracle = own unrolling into a flat network "
-    "with T+1 slices and its brute-force joint: query()/backward_inference() must equal P(X_t | all evidence), "
-    "forward_inference() P(X_t | evidence up to t). get_constant_bn and initialize_initial_state are compared "
-    "CPD by CPD (named assignments) with the template. non-trivial = >= 2 variables per slice, T >= 2 and "
-    "evidence in >= 1 slice; distinct = sha1 of the case."
+    "cases = two-slice templates with 1-3 variables per slice (cards 2-3, string names), a random intra-slice DAG "
+    "(variables without any intra-slice edge included), random inter-slice edges (one or several interface nodes; "
+    "edges joining different variables included), CPDs for slice 0 and for the transition (parents declared in any "
+    "order) x query variables at times 0..T (T<=3) x evidence classes {none, non-interface only, on interface nodes, "
+    "in several slices, later than the query}. Oracle = own unrolling into a flat network with T+1 slices and its "
+    "brute-force joint: query()/backward_inference() must equal P(X_t | all evidence), forward_inference() "
+    "P(X_t | evidence up to t). Outside the three listed known findings (a queried slice >= 1 followed by more work; "
+    "interface evidence before the last slice in smoothing mode) every marginal beyond slice 0 is held to 1e-8. "
+    "get_constant_bn and initialize_initial_state are compared CPD by CPD (named assignments) with the template. "
+    "non-trivial = >= 2 variables per slice, T >= 2 and evidence in >= 1 slice; distinct = sha1 of the case."
 )
 ASSUMPTIONS = [
+    "the slice-0 and one-and-half-slice moral graphs (interface nodes completed) are connected; for the others the "
+    "engine may reject the template with ValueError 'No sepset found' as BeliefPropagation does for any disconnected "
+    "network (class disconnected_slice_graph_rejected); if it accepts them the answers are compared as usual",
     "P(evidence) > 0 (projected from an assignment in the support of the unrolled joint)",
-    "every variable has at least one intra-slice edge when the inference engine is used (see known finding "
-    "dbn-inference-needs-intra-slice-edges for the other templates)",
     "default integer state names (the DBN engine relabels factors without state names)",
     "forward_inference is read as filtering (evidence up to the query time), query/backward_inference as smoothing",
 ]
@@ -30,7 +33,7 @@ NAMES = ["A", "B", "C"]
 
 @st.composite
 def template(draw, min_vars=1):
-    n = draw(st.integers(min_vars, 3))
+    n = draw(st.sampled_from([x for x in (2, 3, 1, 2) if x >= min_vars]))
     names = NAMES[:n]
     card = {v: draw(st.sampled_from([2, 2, 2, 3])) for v in names}
     topo = list(draw(st.permutations(names)))
@@ -39,8 +42,8 @@ def template(draw, min_vars=1):
     if not inter:
         inter = [(names[draw(st.integers(0, n - 1))], names[draw(st.integers(0, n - 1))])]
     # every variable needs both of its slice nodes in the graph: give a variable without intra-slice edge either an
-    # intra-slice edge (usual) or a persistence edge v_t -> v_t+1 (rare; the engine cannot handle those templates)
-    keep_bare = draw(st.integers(0, 6)) == 0
+    # intra-slice edge or a persistence edge v_t -> v_t+1
+    keep_bare = draw(st.integers(0, 2)) == 0
     for i, v in enumerate(topo):
         if not any(v in e for e in intra):
             if n >= 2 and not keep_bare:
@@ -87,7 +90,7 @@ def unroll(t, T):
 @st.composite
 def dbn_case(draw, min_vars=1):
     t = draw(template(min_vars))
-    T = draw(st.integers(0, 3 if len(t["names"]) <= 2 else 2))
+    T = draw(st.sampled_from([2, 1, 3, 1, 2, 0] if len(t["names"]) <= 2 else [2, 1, 1, 2, 0]))
     flat = unroll(t, T)
     J = Joint.from_bn(flat)
     support = sorted(J.support_assignments())
@@ -97,7 +100,7 @@ def dbn_case(draw, min_vars=1):
     nq = draw(st.integers(1, min(3, len(nodes))))
     query = order[:nq]
     rest = order[nq:]
-    mode = draw(st.sampled_from(["none", "some", "some", "many"]))
+    mode = draw(st.sampled_from(["some", "many", "some", "none"]))
     ne = 0 if mode == "none" else (draw(st.integers(1, 2)) if mode == "some" else min(len(rest), draw(st.integers(2, 4))))
     evidence = [[list(v), a[J.idx[v]]] for v in rest[:ne]]
     return {"template": t, "T": T, "query": [list(q) for q in query], "evidence": evidence}
@@ -155,6 +158,40 @@ def _ref_named(c, card):
     return out
 
 
+def _connected(nodes, edges):
+    nodes = list(nodes)
+    if not nodes:
+        return True
+    adj = {v: set() for v in nodes}
+    for u, v in edges:
+        adj[u].add(v)
+        adj[v].add(u)
+    seen, stack = {nodes[0]}, [nodes[0]]
+    while stack:
+        for y in adj[stack.pop()]:
+            if y not in seen:
+                seen.add(y)
+                stack.append(y)
+    return len(seen) == len(nodes)
+
+
+def _disconnected_slice_graph(t):
+    """the slice-0 or the one-and-half-slice moral graph (interfaces completed) is not connected"""
+    names = t["names"]
+    iface = sorted({u for u, v in t["inter"]})
+    par0 = {v: [u for u, w in t["intra"] if w == v] for v in names}
+    e0 = [((u, 0), (v, 0)) for u, v in t["intra"]]
+    e0 += [((a, 0), (b, 0)) for v in names for a in par0[v] for b in par0[v] if a < b]
+    e0 += [((a, 0), (b, 0)) for a in iface for b in iface if a < b]
+    n0 = [(v, 0) for v in names]
+    par1 = {v: [(u, 1) for u in par0[v]] + [(u, 0) for u, w in t["inter"] if w == v] for v in names}
+    e1 = [(p, (v, 1)) for v in names for p in par1[v]]
+    e1 += [(a, b) for v in names for a in par1[v] for b in par1[v] if a < b]
+    e1 += [((a, 0), (b, 0)) for a in iface for b in iface if a < b] + [((a, 1), (b, 1)) for a in iface for b in iface if a < b]
+    n1 = [(v, 0) for v in iface] + [(v, 1) for v in names]
+    return not _connected(n0, e0) or not _connected(n1, e1)
+
+
 def _interface_nodes(t):
     return sorted({u for u, v in t["inter"]})
 
@@ -187,11 +224,35 @@ def check_inference(case, out):
     r = out.call("initialize_initial_state", model.initialize_initial_state)
     if r is RAISED:
         return
-    tag_sfx = "[variable_without_intra_slice_edge]" if no_intra else ""
-    eng = out.call("DBNInference" + tag_sfx, DBNInference, model)
-    if eng is RAISED:
-        return
+    tag_sfx = ""
+    if {u for u, v in t["inter"]} != {v for u, v in t["inter"]}:
+        out.cls("inter_edge_sources_differ_from_targets")
+    if _disconnected_slice_graph(t):
+        # junction trees exist for connected graphs only (BeliefPropagation rejects a disconnected network with
+        # ValueError, see C14): the same clean rejection is accepted here, anything else is compared as usual
+        out.cls("disconnected_slice_graph")
+        try:
+            eng = DBNInference(model)
+        except ValueError as e:
+            if "sepset" in str(e):
+                out.cls("disconnected_slice_graph_rejected")
+                return
+            out.fail("DBNInference[disconnected_slice_graph]:raised ValueError", str(e)[:200])
+            return
+        except Exception as e:  # noqa: BLE001
+            out.fail(f"DBNInference[disconnected_slice_graph]:raised {type(e).__name__}", str(e)[:200])
+            return
+    else:
+        eng = out.call("DBNInference", DBNInference, model)
+        if eng is RAISED:
+            return
     out.evals = 0
+    if T >= 1:
+        # outside the three known findings the engine has to be exact beyond slice 0
+        if not _queried_slice_before_later_query(case):
+            out.cls("beyond_slice0_filtering_held_to_exactness")
+        if not (_queried_slice_inside_smoothing_range(case) or _interface_evidence_before_last_slice(case)):
+            out.cls("beyond_slice0_smoothing_held_to_exactness")
     cls_ev = "[evidence_on_interface]" if ev_iface else ("[evidence]" if evidence else "")
     for api in ("query", "backward_inference", "forward_inference"):
         fn = getattr(eng, api)
@@ -307,19 +368,32 @@ SUBCHECKS = [
     Sub("structure", check_structure, strategy=lambda tier: dbn_case(), n={"quick": 100, "thorough": 1500},
         shards={"quick": 3, "thorough": 8}, doc="get_constant_bn exposes the template CPDs; initialize_initial_state leaves given CPDs alone and copies missing ones unchanged"),
 ]
-def _no_intra(case):
+def _times(case):
+    q = sorted({x[1] for x in case["query"]})
+    tr = max(q + [v[1] for v, _ in case["evidence"]])
+    return q, tr
+
+
+def _queried_slice_before_later_query(case):
+    """forward pass: a queried slice t >= 1 is followed by another queried slice"""
+    q, tr = _times(case)
+    return any(1 <= x < y for x in q for y in q)
+
+
+def _queried_slice_inside_smoothing_range(case):
+    """backward pass: a queried slice t >= 1 with work left after it (a later slice in the forward sweep or an
+    earlier queried slice in the backward sweep)"""
+    q, tr = _times(case)
+    return any(1 <= x < tr for x in q) or any(x >= 1 and y < x for x in q for y in q)
+
+
+def _interface_evidence_before_last_slice(case):
     t = case["template"]
-    return not all(any(v in e for e in t["intra"]) for v in t["names"])
+    q, tr = _times(case)
+    iface = {u for u, v in t["inter"]}
+    return any(v[0] in iface and v[1] < tr for v, _ in case["evidence"])
 
 
-def _src_ne_dst(case):
-    t = case["template"]
-    return {u for u, v in t["inter"]} != {v for u, v in t["inter"]}
-
-
-def _beyond_zero(case):
-    return case["T"] >= 1
-
-
-PREDICATES = {"some_variable_without_intra_slice_edge": _no_intra, "inter_edge_sources_differ_from_targets": _src_ne_dst,
-              "time_range_beyond_slice_zero": _beyond_zero}
+PREDICATES = {"queried_slice_before_later_query": _queried_slice_before_later_query,
+              "queried_slice_inside_smoothing_range": _queried_slice_inside_smoothing_range,
+              "interface_evidence_before_last_slice": _interface_evidence_before_last_slice}
